@@ -2,7 +2,8 @@
     the repaired model, refinement of the caches, independence of the block results from oracle
     families and restart placements; refutation witnesses for the faithful flags; coverage of the
     generated site inventory. *)
-From BX Require Import Base.Prelude Model.Determinism.
+From BX Require Import Base.Prelude Model.Determinism Model.DeterminismSites.
+From BXGen Require Import Gen_MapRanges.
 From Coq Require Import String Permutation.
 Local Open Scope N_scope.
 
@@ -972,3 +973,178 @@ Corollary exec_oracle_independent_fixed :
   oracle_ok o1 -> oracle_ok o2 ->
   run cfg_fixed o1 r1 g bs = run cfg_fixed o2 r2 g bs.
 Proof. apply exec_oracle_independent. apply cfg_fixed_clean. Qed.
+
+(* ------------------------------------------------------------------------------------- *)
+(** * The boolean property predicate evaluated on implementation traces *)
+Lemma all_same_spec l : all_same l = true <-> (forall x y, In x l -> In y l -> x = y).
+Proof.
+  destruct l as [|a t]; cbn [all_same]; [split; [intros _ x y []|reflexivity]|].
+  rewrite forallb_forall. split.
+  - intros H x y Hx Hy.
+    assert (Ha : forall z, In z (a :: t) -> z = a).
+    { intros z [->|Hz]; [reflexivity|]. specialize (H z Hz). apply N.eqb_eq in H. symmetry. exact H. }
+    rewrite (Ha x Hx), (Ha y Hy). reflexivity.
+  - intros H z Hz. apply N.eqb_eq. apply H; [left; reflexivity|right; exact Hz].
+Qed.
+
+Lemma replicas_agree_b_spec dg : replicas_agree_b dg = true <-> replicas_agree dg.
+Proof.
+  unfold replicas_agree_b, replicas_agree, block_agrees. rewrite forallb_forall. split.
+  - intros H fields Hf vals Hv. specialize (H fields Hf). rewrite forallb_forall in H.
+    apply all_same_spec. apply H. exact Hv.
+  - intros H fields Hf. rewrite forallb_forall. intros vals Hv. apply all_same_spec. apply H with fields; assumption.
+Qed.
+
+(* ------------------------------------------------------------------------------------- *)
+(** * Refutation witnesses: with a defect flag on, two admissible runs of one history differ *)
+Definition rev_oracle : oracle := Build_oracle (fun _ _ _ l => rev l) (fun _ l => rev l) (fun h n => h + n).
+Lemma rev_oracle_ok : oracle_ok rev_oracle.
+Proof. split; intros; cbn; apply Permutation_sym, Permutation_rev. Qed.
+Lemma o_id_ok : oracle_ok o_id.
+Proof. split; intros; cbn; apply Permutation_refl. Qed.
+
+Definition only (f : N) : Defects :=
+  Build_Defects (f =? 1) (f =? 2) (f =? 3) (f =? 4) (f =? 5) (f =? 6) (f =? 7) false.
+
+Definition av : svcrec := Build_svcrec true true.
+Definition unav : svcrec := Build_svcrec false true.
+(** services: chain 0 svc 0 = 0, chain 1 svc 0 = 16, chain 1 svc 1 = 17, chain 2 svc 0 = 32 *)
+Definition w_genesis : list (N * val) :=
+  [(K_svc 0, VSvc av); (K_svc 16, VSvc av); (K_svc 17, VSvc av); (K_svc 32, VSvc av)].
+Definition child (dst : N) (timeout : N) : tx := TIbtp true (Build_ibtp 0 dst 1 0 timeout (Some (7, 3))).
+Definition child_receipt (dst typ : N) : tx := TIbtp true (Build_ibtp 0 dst 1 typ 0 (Some (7, 3))).
+Definition blk (ts : list tx) : block := Build_block ts [].
+Definition never : nat -> bool := fun _ => false.
+Definition before0 : nat -> bool := fun n => match n with O => true | _ => false end.
+Definition before1 : nat -> bool := fun n => match n with 1%nat => true | _ => false end.
+
+(** 1. one-to-many group, failure receipt: NotifySrc ids in map order *)
+Definition w_notify : list block :=
+  [blk [child 16 0; child 17 0; child 32 0]; blk [child_receipt 16 2]].
+Lemma notify_unsorted_refuted :
+  exists g bs o1 o2, oracle_ok o1 /\ oracle_ok o2 /\ run (only 1) o1 never g bs <> run (only 1) o2 never g bs.
+Proof.
+  exists w_genesis, w_notify, o_id, rev_oracle. split; [apply o_id_ok|]. split; [apply rev_oracle_ok|].
+  intro H. apply (f_equal (map r_multitx_counter)) in H. vm_compute in H. discriminate.
+Qed.
+
+(** 2. a group times out: children listed in map order in TimeoutCounter *)
+Definition w_timeout : list block := [blk [child 16 2; child 32 2]; blk []; blk []].
+Lemma timeout_child_order_refuted :
+  exists g bs o1 o2, oracle_ok o1 /\ oracle_ok o2 /\ run (only 2) o1 never g bs <> run (only 2) o2 never g bs.
+Proof.
+  exists w_genesis, w_timeout, o_id, rev_oracle. split; [apply o_id_ok|]. split; [apply rev_oracle_ok|].
+  intro H. apply (f_equal (map r_timeout_counter)) in H. vm_compute in H. discriminate.
+Qed.
+
+(** 3. two illegal permission ids: the first in map order names the error *)
+Lemma first_error_order_refuted :
+  exists g bs o1 o2, oracle_ok o1 /\ oracle_ok o2 /\ run (only 3) o1 never g bs <> run (only 3) o2 never g bs.
+Proof.
+  exists w_genesis, [blk [TPerm S_PERM [1; 2]]], o_id, rev_oracle. split; [apply o_id_ok|]. split; [apply rev_oracle_ok|].
+  intro H. apply (f_equal (map r_receipts)) in H. vm_compute in H. discriminate.
+Qed.
+
+(** 4. restart between genesis and the next block loses the name-service records *)
+Lemma bns_after_flush_refuted :
+  exists g bs r1 r2, run (only 4) o_id r1 g bs <> run (only 4) o_id r2 g bs.
+Proof.
+  exists w_genesis, [blk [TOpaque true]], never, before0.
+  intro H. apply (f_equal (map r_state_root)) in H. vm_compute in H. discriminate.
+Qed.
+
+(** 5. a failed transaction's SERVICE event stays in the cache of the node that kept running *)
+Definition w_cache : list block :=
+  [blk [TGov false true [(16, unav)]]; blk [TIbtp true (Build_ibtp 0 16 1 0 0 None)]].
+Lemma cache_failed_events_refuted :
+  exists g bs r1 r2, run (only 5) o_id r1 g bs <> run (only 5) o_id r2 g bs.
+Proof.
+  exists w_genesis, w_cache, never, before1.
+  intro H. apply (f_equal (map r_receipts)) in H. vm_compute in H. discriminate.
+Qed.
+
+(** 6. InitServiceCache sets a field of the registered object; a restart clears it *)
+Definition w_single : list block :=
+  [blk [TInitCache]; blk [THandleData (Build_ibtp 0 16 1 0 0 None)]].
+Lemma singleton_mem_refuted :
+  exists g bs r1 r2, run (only 6) o_id r1 g bs <> run (only 6) o_id r2 g bs.
+Proof.
+  exists w_genesis, w_single, never, before1.
+  intro H. apply (f_equal (map r_receipts)) in H. vm_compute in H. discriminate.
+Qed.
+
+(** 7. promoted core-manager method: previous call's Persister or nil *)
+Definition w_persist : list block := [blk [TGov true true []]; blk [TPromoted]].
+Lemma stale_persister_refuted :
+  exists g bs r1 r2, run (only 7) o_id r1 g bs <> run (only 7) o_id r2 g bs.
+Proof.
+  exists w_genesis, w_persist, never, before1.
+  intro H. apply (f_equal (map r_receipts)) in H. vm_compute in H. discriminate.
+Qed.
+
+(** non-vacuity: on the same witnesses the repaired model gives one answer, and that answer is
+    not trivial (the group notification and the timeout list are really produced) *)
+Example fixed_notify_example :
+  map r_multitx_counter (run cfg_fixed rev_oracle before1 w_genesis w_notify) =
+  [[]; []; [(0, [mk_id 0 17 1; mk_id 0 32 1])]].
+Proof. vm_compute. reflexivity. Qed.
+Example fixed_timeout_example :
+  map r_timeout_counter (run cfg_fixed rev_oracle before1 w_genesis w_timeout) =
+  [[]; []; []; [(0, [mk_id 0 16 1; mk_id 0 32 1])]].
+Proof. vm_compute. reflexivity. Qed.
+Example fixed_cache_example :
+  map (fun r => map rc_ok (r_receipts r)) (run cfg_fixed o_id never w_genesis w_cache) = [[]; [false]; [true]].
+Proof. vm_compute. reflexivity. Qed.
+
+(* ------------------------------------------------------------------------------------- *)
+(** * The site inventory regenerated from the sources is exactly the classified table *)
+Definition gsite_eqb (a b : gsite) : bool :=
+  let '(f1, n1, k1, o1, x1, h1) := a in let '(f2, n2, k2, o2, x2, h2) := b in
+  String.eqb f1 f2 && String.eqb n1 n2 && String.eqb k1 k2 && (o1 =? o2)%N && String.eqb x1 x2 && String.eqb h1 h2.
+Definition gen_all_sites : list gsite := gen_range_sites ++ gen_clock_sites ++ gen_go_sites ++ gen_select_sites.
+Definition pinned_gsites : list gsite := map (fun e => fst (fst (fst e))) pinned_sites.
+Definition subset_b (a b : list gsite) : bool := forallb (fun x => existsb (gsite_eqb x) b) a.
+
+(** every generated site (a new range over a map, a new time.Now(), a new go statement, or any edit
+    of a function that contains one) must be in the table with the same function hash ... *)
+Lemma sites_covered : subset_b gen_all_sites pinned_gsites = true.
+Proof. vm_compute. reflexivity. Qed.
+(** ... the table has no stale entries ... *)
+Lemma sites_not_stale : subset_b pinned_gsites gen_all_sites = true.
+Proof. vm_compute. reflexivity. Qed.
+(** ... and every entry carries one of the known classes (a new site arrives as UNCLASSIFIED) *)
+Lemma sites_classified :
+  forallb (fun e => existsb (String.eqb (snd (fst (fst e)))) site_classes) pinned_sites = true.
+Proof. vm_compute. reflexivity. Qed.
+
+(** the oracle sites the model executes are all named by some table entry *)
+Definition model_sites : list N :=
+  [S_BM0; S_BM1; S_R0; S_R1; S_CMS; S_IMF; S_AT0; S_TIM0; S_PE0; S_PE1; S_PE2; S_SG0; S_STL0; S_STL1; S_FL0; S_FL1; S_CM0; S_GEN0; S_PERM; S_ADMIN; S_R2].
+Lemma model_sites_tied :
+  forallb (fun s => existsb (fun e => (snd (fst e) =? s)%N) pinned_sites) model_sites = true.
+Proof. vm_compute. reflexivity. Qed.
+
+Lemma gsite_eqb_eq a b : gsite_eqb a b = true -> a = b.
+Proof.
+  destruct a as [[[[[f1 n1] k1] o1] x1] h1], b as [[[[[f2 n2] k2] o2] x2] h2]. cbn [gsite_eqb].
+  rewrite !andb_true_iff. intros [[[[[A B] C] D] E] F].
+  apply String.eqb_eq in A, B, C, E, F. apply N.eqb_eq in D. subst. reflexivity.
+Qed.
+Lemma sites_covered_In : forall s, In s gen_all_sites -> In s pinned_gsites.
+Proof.
+  intros s Hin. pose proof sites_covered as H. unfold subset_b in H. rewrite forallb_forall in H.
+  specialize (H s Hin). apply existsb_exists in H. destruct H as [x [Hx He]].
+  apply gsite_eqb_eq in He. subst. exact Hx.
+Qed.
+
+(** what is NOT derived but taken as an input: the receipt status and SERVICE events of opaque
+    transactions (native transfers, governance calls, XVM/EVM execution).  The theorem holds for
+    every value of these inputs, provided both runs are given the SAME inputs; that two nodes
+    compute the same inputs is checked by the replica comparison only. *)
+Corollary opaque_execution_partial :
+  forall (g : list (N * val)) (pre post : list block) (ok touch : bool) (evs : list (N * svcrec))
+         (o1 o2 : oracle) (r1 r2 : nat -> bool),
+  oracle_ok o1 -> oracle_ok o2 ->
+  run cfg_fixed o1 r1 g (pre ++ blk [TGov ok touch evs; TOpaque ok] :: post) =
+  run cfg_fixed o2 r2 g (pre ++ blk [TGov ok touch evs; TOpaque ok] :: post).
+Proof. intros. apply exec_oracle_independent_fixed; assumption. Qed.
